@@ -350,6 +350,13 @@ func rcGen(g *h.Gen) {
 	for _, p := range []string{"Show", "Sync", "SetTitle", "SetSize", "GetClipboard"} {
 		g.Emit("race pair tscreen SetClipboard %s cs=UTF-8 ms=%d seed=%d", p, ms, g.R.Intn(1<<30))
 	}
+	// a SECOND screen in the same process (op OtherScreen: its own goroutine draws runes that need the fallback table and asks
+	// CanDisplay) against the calls of the first one that touch tables a screen is meant to own: nothing one screen does may
+	// reach the other (package-level defaults shared instead of copied).  Non-UTF-8 charset: the fallback table is consulted.
+	for _, p := range []string{"UnregisterRuneFallback", "RegisterRuneFallback", "SetStyle", "Fill"} {
+		g.Emit("race pair tscreen %s OtherScreen cs=ISO8859-1 ms=%d seed=%d", p, ms, g.R.Intn(1<<30))
+	}
+	g.Emit("race pair sim UnregisterRuneFallback OtherScreen cs=ISO8859-1 ms=%d seed=%d", ms, g.R.Intn(1<<30))
 	// the lifecycle pairs, whatever the facts say (a tree that serialises engage/disengage must be clean here and must
 	// not deadlock; the pinned tree shows race-disengage-tail / race-loops-overlap): input and resize traffic is on
 	life := [][2]string{{"Suspend", "Resume"}, {"Fini", "Resume"}, {"Suspend", "Suspend"}, {"Fini", "Suspend"}, {"Resume", "Resume"},
